@@ -342,6 +342,11 @@ EXPORT int _decomp_s(wchar_t *restrict dest, rsize_t dmax, const uint32_t cp,
                      const bool iscompat) {
     /*assert(dmax > 4);*/
 
+    if (unlikely(cp > _UNICODE_MAX)) { /* not a plane-table index */
+        if (dmax)
+            *dest = 0;
+        return 0;
+    }
     /* The costly is_HANGUL_cp_high(cp) checks also all composing chars.
        Hangul_IsS only for the valid start points. Which we can do here. */
     if (Hangul_IsS(cp)) {
@@ -443,6 +448,8 @@ static uint32_t _composite_cp(uint32_t cp, uint32_t cp2) {
 
 static uint8_t _combin_class(uint32_t cp) {
     const uint8_t **plane, *row;
+    if (unlikely(cp > _UNICODE_MAX)) /* only 17 planes */
+        return 0;
     plane = UNWIF_combin[cp >> 16];
     if (!plane)
         return 0;
